@@ -12,16 +12,15 @@ CLAIMS = {
              "step consumes exactly the supplied path on its own [t0,t1]; first-order consistency (collapsed drift and "
              "diffusion weight 1) of all ten step bodies as a polynomial identity in opaque f, g; Roessler's order "
              "conditions for the tableaus actually imported; advertised strong_order <= literature order per "
-             "(solver, noise type). The limit dt->0 itself is not decided. Derivative-free Milstein: finite difference at one time, and no O(h^1.5) bias per step (second-order weight of the difference quotient times E[v] vanishes).",
-        note="Partial: decides the listed necessary conditions, not the behaviour 'converges at order p'. " + TRUSTED),
+             "(solver, noise type). The limit dt->0 itself is not decided. Derivative-free Milstein: finite difference at one time, and no O(h^1.5) bias per step (second-order weight of the difference quotient times E[v] vanishes). R02.6: for a generic scalar SDE the two local-error hypotheses of Milstein's fundamental theorem (mean-square local error O(h^(p+1/2)), mean local error O(h^(p+1))) hold at the advertised p for every (solver, noise type, option) scenario, by symbolic stochastic Taylor expansion of the step body.",
+        note="Partial: necessary conditions in general; for scalar SDEs with smooth Lipschitz coefficients R02.6 establishes the hypotheses of the convergence theorem (the theorem itself is cited, not mechanised). " + TRUSTED),
     "C02": dict(
         technique="ast formula canonicalisation against textbook formulas; exact rational tableau arithmetic",
         text="Euler and derivative-based Milstein steps equal their textbook formulas as polynomial identities in "
              "opaque F, G, GDG atoms (the property states this equality verbatim); Ito/Stratonovich v-term; weight-1 "
              "Stratonovich condition sum v_i c_i = 1/2 for every RK-type step and derivative-free Milstein; SRK "
-             "scheme form and 25 SRI / 8 SRA order conditions in exact rationals. Milstein operator is one Jacobian-vector product per diffusion column (a transposed product only for diagonal noise); derivative-free Milstein carries no O(h^1.5) bias.",
-        note="Partial: Taylor agreement beyond these conditions for Heun/midpoint/log-ODE/reversible Heun is not "
-             "decided. " + TRUSTED),
+             "scheme form and 25 SRI / 8 SRA order conditions in exact rationals. Milstein operator is one Jacobian-vector product per diffusion column (a transposed product only for diagonal noise); derivative-free Milstein carries no O(h^1.5) bias. R02.6: for a generic scalar SDE (d = m = 1, derivatives of f and g symbolic) every step is expanded in (h, dW, U) and agrees with the Ito / Stratonovich Taylor expansion, built from the operators L0, L1, identically up to weight p and in expectation at weight p + 1/2, p the advertised strong order (the property's own two clauses).",
+        note="Partial: the Taylor comparison is decided for scalar SDEs; multi-dimensional non-commutative terms are covered only by the structural rules. " + TRUSTED),
     "C03": dict(
         technique="ast formula canonicalisation: Chen identities of the split and of the aggregation loop",
         text="Polynomial identities extracted from the source: children of a split sum to the parent (W additivity, "
